@@ -215,7 +215,9 @@ class StmtMixin:
             return v
         c = self.cell(v)
         k = kinds[nm]
-        if isinstance(c, ListCell) and c.seq is None:
+        if isinstance(c, SetCell) and c.arr is None:
+            Core.setcell(self, v, SetCell(k, z3.K(kind_sort(k), False)))
+        elif isinstance(c, ListCell) and c.seq is None:
             Core.setcell(self, v, ListCell(z3.Empty(z3.SeqSort(kind_sort(k))), k,
                                            z3.StringVal('') if k == 'str' else None))
         elif isinstance(c, DictCell) and not c.items:
@@ -512,8 +514,21 @@ class StmtMixin:
             spec = LoopSpec()
         lname = f'{self.frame.func.key}{self.label_suffix()}::loop#{ordn}'
         env = self.frame.env
+        outer_i, outer_n = env.get('_i'), env.get('_n')
+        try:
+            self.for_symbolic(node, ordn, spec, n, elem, lname)
+        finally:
+            # the ghost index of an enclosing loop becomes current again
+            for k, v in (('_i', outer_i), ('_n', outer_n)):
+                if v is None:
+                    env.pop(k, None)
+                else:
+                    env[k] = v
+
+    def for_symbolic(self, node, ordn, spec, n, elem, lname):
+        env = self.frame.env
         # ---- initialisation
-        env['_i'] = VInt(0)
+        env['_i'] = env[f'_i{ordn}'] = VInt(0)
         env['_n'] = VInt(n)
         for nm, inv in named(spec.invariant, 'inv'):
             self.check_spec(inv, f'{lname}::{nm}-init', 'inv-init')
@@ -521,7 +536,7 @@ class StmtMixin:
         self.havoc_loop(node, spec, [node.target] if True else [])
         i = z3.Int(self.fresh_name('_i'))
         self.assume(z3.And(i >= 0, i <= n))
-        env['_i'] = VInt(i)
+        env['_i'] = env[f'_i{ordn}'] = VInt(i)
         for nm, inv in named(spec.invariant, 'inv'):
             self.assume_spec(inv)
         k = self.choose([i < n, i == n])
@@ -531,14 +546,11 @@ class StmtMixin:
             r = self.run_body(node.body)
             self.end_write_log(spec, node)
             if r == 'break':
-                env.pop('_i', None)
-                env.pop('_n', None)
                 return
-            env['_i'] = VInt(i + 1)
+            env['_i'] = env[f'_i{ordn}'] = VInt(i + 1)
             for nm, inv in named(spec.invariant, 'inv'):
                 self.check_spec(inv, f'{lname}::{nm}-pres', 'inv-pres')
             raise PathEnd()
-        env.pop('_n', None)
         self.exec_block(node.orelse)
 
     def ex_While(self, node):
@@ -629,6 +641,10 @@ class StmtMixin:
                 self.limit('cannot havoc an untyped empty list (declare its kind)', node)
             self.setcell(ptr, ListCell(z3.Const(self.fresh_name('hv'), c.seq.sort()), c.kind,
                                        z3.String(self.fresh_name('hvjoined')) if c.joined is not None else None))
+        elif isinstance(c, SetCell):
+            if c.arr is None:
+                self.limit('cannot havoc an untyped empty set (declare its kind)', node)
+            self.setcell(ptr, SetCell(c.kind, z3.Const(self.fresh_name('hv_set'), c.arr.sort())))
         elif isinstance(c, MapCell):
             dom = z3.Const(self.fresh_name('hv_dom'), c.dom.sort())
             vals = z3.Const(self.fresh_name('hv_val'), c.vals.sort()) if c.vals is not None else None
